@@ -215,6 +215,18 @@ fn observe_batch(tree: &mut MerkleTree, prof: Prof, leaves: &[Vec<u8>], distinct
                 q.drain(k * w..(k + 1) * w);
                 attempt(i as u64, &leaves[i], &q);
             }
+            // a PARTIAL element added or removed: the path is no longer a whole number of nodes
+            for stray in [1usize, w / 2, w - 1] {
+                let mut q = p.clone();
+                let extra = rng.bytes(stray);
+                q.extend(extra);
+                attempt(i as u64, &leaves[i], &q);
+                if p.len() >= stray {
+                    let mut q = p.clone();
+                    q.truncate(p.len() - stray);
+                    attempt(i as u64, &leaves[i], &q);
+                }
+            }
             for k in 0..=depth {
                 let mut q = p.clone();
                 let ins = if rng.chance(1, 2) { vec![0u8; w] } else { rng.bytes(w) };
